@@ -925,6 +925,10 @@ func (fr *Frame) doAppend(st *State, s, t Val, tOperand ssa.Value) Val {
 	u.hset(st, hn, hs, nh)
 	res := ite(fits, sx("mkslice", sx("s_arr", s.T), sx("s_off", s.T), newLen, sx("s_cap", s.T)), sx("mkslice", newRef, "0", newLen, newCap))
 	r := u.define("appended", sSlice, res)
+	// when the append happens in place, element i of the result sits where element i of the operand sat: stated with sidx
+	// terms so that quantified facts about the operand (triggered on sidx) apply to the result
+	u.sidx(r, "0")
+	u.assume(st, implies(fits, fmt.Sprintf("(forall ((i Int)) (! (= (sidx %s i) (sidx %s i)) :pattern ((sidx %s i))))", r, s.T, r)))
 	return Val{r, s.Ty, ""}
 }
 
